@@ -68,7 +68,12 @@ RECURSIVE SemUnspecified(_)
 SemUnspecified(t) ==
   IF IsBinary(t) THEN SemUnspecified(t.l) \/ SemUnspecified(t.r)
   ELSE IF IsUnary(t) THEN SemUnspecified(t.e)
-  ELSE (t.k = "perm" /\ t.chk = "any" /\ t.m = 0)
+  ELSE \/ (t.k = "perm" /\ t.chk = "any" /\ t.m = 0)
+       \* a backslash in a pattern quotes the next character for fnmatch but is an ordinary character
+       \* for the literal comparison the code generator selects when the pattern has no wildcard:
+       \* what such a pattern means is left to the runtime
+       \/ (t.k \in {"name", "iname", "path", "ipath"} /\ HasChar(t.s, cBSL))
+       \/ (t.k = "xattr-match" /\ (HasChar(t.s, cBSL) \/ HasChar(t.s2, cBSL)))
 
 \* ---- formatted output ----
 EscByte(x) == CASE x = "a" -> 7 [] x = "b" -> 8 [] x = "f" -> 12 [] x = "n" -> 10 [] x = "r" -> 13 [] x = "t" -> 9
